@@ -75,7 +75,7 @@ def run(ctx):
             names = {s.a[1] for s in subterms(pair[0][2]) if s.op == "param"}
             neg = [s for s in subterms(pair[0][2]) if s.op == "call" and B.cname(s) == "Neg::neg"]
             cw = [s for s in subterms(pair[0][2]) if s.op == "call" and B.cname(s) == "BlsSignCrypt::compute_w"]
-            ok = {"share", "pk", "u", "v", "w", "dst"} <= names and len(neg) == 1 and len(cw) == 1
+            ok = {"share", "pk", "u", "v", "w", "dst"} <= names and len(cw) == 1  # sign / operand placement: E5.equation
         ctx.ob("E4.verify_share", g.key + "/equation", ok, "verify_share = %s (want 3 identity guards & pairing[(-compute_w(u,v,dst), share), (w, pk)])" % G.show_f(fm, 3)[:260], where=where(g))
     from . import equations as EQ
 
@@ -135,6 +135,10 @@ def run(ctx):
             while x.op in ("ref", "deref") or (x.op == "call" and B.cname(x) in ("Deref::deref", "Vec::<T, A>::as_slice", "Iterator::collect", "AsRef::as_ref")):
                 x = x.a[0] if x.op in ("ref", "deref") else x.a[1][0]
             ok = x.op == "call" and B.cname(x) == "Iterator::map" and R.covers_all(x.a[1][0], "shares") == "all"
+            if not ok:
+                # the same list built by a loop that pushes once per share (or another 1:1 pipeline)
+                src_, steps_ = F.image_source(P, d, ev, ss[0].args[3])
+                ok = src_ is not None and B.peel(src_).op == "param" and B.peel(src_).a[1] == "shares"
         ctx.ob("E6.combine", d.key, ok, "every decryption share is forwarded (1:1 map over the whole list)", where=where(d))
     # C11 flag provenance for the share path
     callers = [(g2, bb) for g2, bb, t in P.callers().get("BlsSignCrypt::decrypt", []) if g2.key in ("BlsSignCrypt::unseal_with_shares", "SignCryptDecryptionKey<C>::decrypt")]
